@@ -159,7 +159,7 @@ func (w *l1World) checkSnapshots() error {
 			last = v
 		}
 		// rebuild from the latest snapshot + later operations == rebuild from the whole log
-		if k.created {
+		if k.created && !w.noRebuild {
 			log, _ := w.storedLog(k.duid)
 			st, err := w.prefixState(k, int64(len(log)))
 			if err != nil {
